@@ -263,10 +263,21 @@ class ResourceManager:
             else:
                 assert False # :nocov:
 
-        value = resolve(resource,
-            *merge_options(resource, dir, xdr),
-            path=(f"{resource.name}_{resource.number}",),
-            attrs=resource.attrs)
+        # If the request is refused halfway through (e.g. because a later subsignal uses a pin that
+        # is already requested), the pins and constraints recorded so far must not stay allocated.
+        phys_reqd = self._phys_reqd.copy()
+        pins      = list(self._pins)
+        io_clocks = dict(self._io_clocks)
+        try:
+            value = resolve(resource,
+                *merge_options(resource, dir, xdr),
+                path=(f"{resource.name}_{resource.number}",),
+                attrs=resource.attrs)
+        except Exception:
+            self._phys_reqd = phys_reqd
+            self._pins      = pins
+            self._io_clocks = io_clocks
+            raise
         self._requested[resource.name, resource.number] = value
         return value
 
